@@ -75,6 +75,10 @@ pub struct PSim {
     pub nwaitpid: u64,
     /// virtual time that passes with every clock reading (time goes by while the library runs)
     pub clock_step: u64,
+    /// signals keep arriving (a profiler, an interval timer): a sleep longer than this is cut short after this long,
+    /// with EINTR and the remaining time reported -- at most `sleep_eintr_left` times
+    pub sleep_slice: u64,
+    pub sleep_eintr_left: u32,
     /// thread that forked the child (waitpid with __WNOTHREAD only sees the calling thread's own children)
     pub creator_tid: i64,
 }
@@ -120,6 +124,8 @@ impl PSim {
             eintr_at: vec![],
             nwaitpid: 0,
             clock_step: 0,
+            sleep_slice: 0,
+            sleep_eintr_left: 0,
             creator_tid: unsafe { libc::syscall(libc::SYS_gettid) } as i64,
         }
     }
@@ -463,6 +469,17 @@ unsafe fn h_clock_nanosleep(
     let mut d = (*req).tv_sec as u64 * 1_000_000_000 + (*req).tv_nsec as u64;
     if flags & libc::TIMER_ABSTIME != 0 {
         d = d.saturating_sub(s.epoch + s.now);
+    }
+    if s.sleep_slice > 0 && d > s.sleep_slice && s.sleep_eintr_left > 0 {
+        s.sleep_eintr_left -= 1;
+        let slice = s.sleep_slice;
+        s.sys_sleep(slice);
+        if flags & libc::TIMER_ABSTIME == 0 && !_rem.is_null() {
+            let left = d - slice;
+            (*_rem).tv_sec = (left / 1_000_000_000) as libc::time_t;
+            (*_rem).tv_nsec = (left % 1_000_000_000) as libc::c_long;
+        }
+        return Some(libc::EINTR);
     }
     s.sys_sleep(d);
     Some(0)
